@@ -969,3 +969,7 @@ mod tests {
         assert_eq!(&expected, result_values);
     }
 }
+
+#[cfg(kani)]
+#[path = "/verif/kani/arrow-string/length.rs"]
+mod verif_kani;
